@@ -150,7 +150,7 @@ func coreLetters(w *drv.World) []string {
 	if l := segmentLive(w, -1); len(l) > 1 && len(l) < len(w.M.Live) {
 		ls = append(ls, delLetter(l))
 	}
-	ls = append(ls, "R:", "R:rec", "R:chk", "RX:all", "G:0", "S", "L")
+	ls = append(ls, "R:", "R:rec", "R:chk", "R:ro", "RX:all", "G:0", "S", "L")
 	return dedupe(ls)
 }
 
@@ -413,7 +413,7 @@ func init() {
 		Depth: map[string]int{"quick": 6, "thorough": 7}, Obs: drv.ObsAll &^ drv.ObsTrim, KeySet: []int{0, 1},
 	})
 	Register(&Family{
-		Name: "cfg", Cfgs: []drv.Cfg{cfgNone, cfgKeys, cfgTimes, withVer(cfgBoth, 1)}, Letters: coreLetters,
+		Name: "cfg", Cfgs: []drv.Cfg{cfgNone, cfgKeys, cfgTimes, withVer(cfgBoth, 1), withAS(cfgBoth)}, Letters: coreLetters,
 		Depth: map[string]int{"quick": 5, "thorough": 6}, Obs: drv.ObsAll &^ drv.ObsTrim, KeySet: []int{0, 1},
 	})
 	Register(&Family{
